@@ -162,10 +162,22 @@ var sparseLimbs = []uint64{0, 0, 1, 1, ^uint64(0), 1 << 63, 1 << 32, 1<<32 - 1, 
 
 // Limbs draws a 256-bit value limb by limb (four 64-bit limbs, most significant first), the way word-level code sees it:
 // class "sparse" takes most limbs from {0, 1, 2, 2^32-1, 2^32, 2^63, 2^64-1} (so values such as 2^64+1, 2^192+1, 2^128, "low limb 1,
-// high limbs random" are common), class "mixed" mixes those with uniform limbs. Values whose low (or any) word looks like a
+// high limbs random" are common), class "mixed" mixes those with uniform limbs, class "fraction" gives values next to j*M/m. Values whose low (or any) word looks like a
 // small constant while the whole value does not are what truncating conversions and partial comparisons confuse.
 func Limbs(t *rapid.T, label string) (*big.Int, string) {
-	cls := Pick(t, label+".lclass", "sparse", "sparse", "mixed")
+	cls := Pick(t, label+".lclass", "sparse", "sparse", "mixed", "fraction")
+	if cls == "fraction" {
+		// wrap boundaries of small multiples: values next to j*M/m for M in {2^256, p, n}, m = 2..8 — where 2x, 3x, ... 8x computed by
+		// shifting or chained additions cross a multiple of the modulus or of 2^256
+		M := []*big.Int{Two256, Two256, P, N}[Uniform(t, label+".fM", 0, 3)]
+		m := int64(Uniform(t, label+".fm", 2, 8))
+		j := int64(Uniform(t, label+".fj", 1, int(m)-1))
+		v := new(big.Int).Mul(M, big.NewInt(j))
+		v.Div(v, big.NewInt(m))
+		v.Add(v, big.NewInt(int64(Uniform(t, label+".fd", 0, 6))-3))
+		v.Mod(v, Two256)
+		return v, "limbs-fraction"
+	}
 	r := Rand(t, label+".lseed")
 	v := new(big.Int)
 	for i := 0; i < 4; i++ {
